@@ -800,6 +800,15 @@ Local Open Scope string_scope.
    collect, reduce - SCollect / SReduce
    props/C18.v compares this list with the regenerated gen/IterFns.v: a new method of Iter is reported as uncovered *)
 Definition covered_consumers : list string := ["iter"; "map"; "collect"; "filter"; "reduce"].
+(* side conditions over the regenerated table gen/IterFns.v: (method, arity, how it gets the iterator of self) *)
+Definition consumer_ok (r : string * nat * string) : bool :=
+  let h := snd r in String.eqb h "self" || String.eqb h "iter" || String.eqb h "for".
+Definition consumers_call_iter (tbl : list (string * nat * string)) : bool := forallb consumer_ok tbl.
+Definition consumers_covered (tbl : list (string * nat * string)) : bool :=
+  forallb (fun r => existsb (String.eqb (fst (fst r))) covered_consumers) tbl
+  && forallb (fun c => existsb (fun r => String.eqb (fst (fst r)) c) tbl) covered_consumers.
+Definition adapter_iter_is_self (tbl : list (string * nat * string)) : bool :=
+  existsb (fun r => String.eqb (fst (fst r)) "iter" && String.eqb (snd r) "self") tbl.
 Definition show_lines (l : list (list byte)) : string := show_sep "," hex_of_bytes l.
 (* hex(render_main) | mech lines | spec lines | early exits *)
 Definition run_case (w : string) : string :=
